@@ -150,6 +150,7 @@ type Replayer struct {
 	HarnessDir string
 	Pkgs       []string // import paths of harness packages (relative like ./proto/protowire)
 	Portable   bool
+	Echo       bool // print the native run's output (debugging)
 	work       string
 }
 
@@ -313,6 +314,9 @@ func (r *Replayer) Run(cases []ReplayCase) ([]ReplayResult, error) {
 		case <-time.After(30 * time.Minute):
 			cmd.Process.Kill()
 			<-done
+		}
+		if r.Echo {
+			os.Stderr.Write(stderr.Bytes())
 		}
 		last := -1
 		f, err := os.Open(outFile)
